@@ -67,6 +67,12 @@ def run_C01(ctx):
     ref_run(ctx, "corectx", ["corectx", "--n", n_cases(ctx, 300, 10000)],
             "package core: block context from a header, BLOCKHASH lookup through header chains (gaps, probes in any order, lookups counted), transaction context and the message view "
             "handed to Aspects, against go-ethereum v1.12.0's core on the same headers and messages", oracle_prefix="C01")
+    corr_run(ctx, "jumpdest", ["jumpdest", "--n", n_cases(ctx, 40, 1500)],
+             "Model/JumpDest.v (the byte-level bit-vector analysis) vs the JUMP instruction: codes dense in PUSH opcodes of every width and JUMPDEST bytes, truncated pushes at the end; "
+             "every destination 0..len+40 and huge words", nontrivial=lambda c: c.get("byte_is_jumpdest", False))
+    corr_run(ctx, "memsize", ["memsize", "--n", n_cases(ctx, 60, 2500)],
+             "Model/MemSize.v (which operands name a memory region, calcMemSize64, rounding to words) vs the memory length successive instructions of a frame see, "
+             "generated executions on all 13 rule sets", nontrivial=lambda c: c.get("memory_after", 0) > c.get("memory_before", 0), has_oracle=True, oracle_prefix="C01")
     ref_run(ctx, "diffref", ["diffref", "--n", n_cases(ctx, 700, 15000)],
             "artela-evm vm vs go-ethereum v1.12.0 core/vm on generated programs (results, post-state root, logs, refund, self-destructs, debug events)",
             nontrivial=lambda c: c.get("steps", 0) >= 5)
@@ -93,6 +99,10 @@ def run_C02(ctx):
              "Model/CallGas.v (forwarded gas = min(request, all but one 64th of what is left) from EIP-150, the request before; callee gas = forwarded + stipend) vs every "
              "CALL/CALLCODE/DELEGATECALL/STATICCALL instruction of generated executions on all 13 rule sets (gas before, total charge, 256-bit request, evm.callGasTemp, gas the callee frame is announced with)",
              nontrivial=lambda c: True, has_oracle=True, oracle_prefix="C02")
+    corr_run(ctx, "sstoregas", ["sstoregas", "--n", n_cases(ctx, 250, 8000)],
+             "Model/SStore.v (charge and refund of SSTORE under the five schedules: legacy, EIP-1283, EIP-2200, EIP-2929 with the EIP-2200 / EIP-3529 clearing refund) vs every "
+             "SSTORE of storage-heavy generated executions on all 13 rule sets (committed, current, new value, gas, charge, refund counter before and after)",
+             nontrivial=lambda c: c.get("current") != c.get("value"))
     ref_run(ctx, "diffref", ["diffref", "--mode", "gas", "--n", n_cases(ctx, 800, 8000)],
             "per-step gas/cost stream, frame gas hand-over, refund and leftover gas vs go-ethereum v1.12.0, re-run at gas limits one below / on / one above intermediate gas values",
             nontrivial=lambda c: c.get("steps", 0) >= 3)
@@ -254,6 +264,9 @@ def run_C17(ctx):
 
 
 def run_C20(ctx):
+    corr_run(ctx, "modexpgas", ["modexpgas", "--n", n_cases(ctx, 300, 8000)],
+             "Model/ModExp.v (bigModExp.RequiredGas, EIP-198 and EIP-2565 schedules with the 64-bit clamp) vs the precompile of the Byzantium and Berlin tables: headers from powers of two "
+             "and neighbours, instances with chosen exponent heads, truncated inputs, the clamp region", nontrivial=lambda c: True, has_oracle=True, oracle_prefix="C20")
     ref_run(ctx, "workscan", ["workscan"], "state reads (counting StateDB) and allocated bytes per journal instruction / Artela precompile call with length fields 2^5..2^16 (2^22 thorough)",
             oracle_prefix="C20")
     corr_run(ctx, "journal", ["journal", "--n", n_cases(ctx, 800, 40000)], "Model/Journal.v decoders vs the instructions (the work formulas are about these functions)",
@@ -286,7 +299,7 @@ PROPS = {
                       "the precompile sets are upstream's plus 0x64-0x66 from Berlin. The frame logic Artela changed (Call/CallCode/DelegateCall/StaticCall/create + the interpreter loop skeleton) is modelled in Coq (Model/Exec.v) and PROVED (Proofs/Exec_refine.v, additions_invisible) "
                       "to compute, with nothing bound and for every standard program, entry point, call tree, gas and depth, exactly the results, world state and debug events of the same logic with the Artela additions switched off; "
                       "that switched-off model is itself run against go-ethereum v1.12.0's own entry points (recorded scripts from the reference implementation, run `execref`). "
-                      "Behavioural equality is validated, and a failing input searched, by running generated programs (valid grammar-based + malformed) through all six entry points on both implementations.",
+                      "Behavioural equality is validated, and a failing input searched, by running generated programs (valid grammar-based + malformed) through all six entry points on both implementations. Inherited pieces on which control flow and memory depend are modelled and proved as well: the jump-destination analysis (Model/JumpDest.v: the byte-level bit-vector algorithm equals its specification for every code; run against JUMP to every position of push-dense codes) and memory expansion (Model/MemSize.v: which operands name a region, rounding to words; run against the memory length successive instructions see). Package core (block context, BLOCKHASH lookup, transaction context) is run against go-ethereum's core.",
         "level_note": COMMON_NOTE + REF_NOTE,
         "rule": "programs for 4 mutually calling contracts from a snippet grammar (arithmetic, memory, storage, logs, jumps, loops, all call kinds to contracts/EOA/empty/precompiles 1-9 with varied gas and value, CREATE/CREATE2, "
                 "returndata, SELFDESTRUCT, early exits) plus a malformed stream (random bytes, truncated PUSH, bad jumps, stack under/overflow, mutated programs) x 12 forks x extra-EIP sets x 6 entry points x join points on/off; "
@@ -412,7 +425,7 @@ PROPS.update({
         "level_text": "Theorems in Coq with Go panics as a first-class outcome of the modelled functions: every journal instruction (any opcode byte 0xe0-0xe7, operand words up to 2^256-1, memory, storage, tracer state) and every call kind / payload "
                       "to 0x64-0x66 ends normally or with an error; every CALL/CREATE entry point returns with the call tree well formed and the cursor at rest for every outcome. For the inherited instruction set absence of panics is the premise "
                       "'go-ethereum v1.12.0 does not panic', tied by C01's identity theorems. The real entry points are fuzzed (random bytes, malformed and generated programs, boundary journal operands, Artela precompile payloads, 13 forks) "
-                      "inside a recover boundary, followed by a depth-0 follow-up call. Known finding F7 (unbounded reference journal) is probed in a child process.",
+                      "inside a recover boundary, followed by a depth-0 follow-up call. Known finding F7 (unbounded reference journal) is probed in a child process. The refund counter, whose underflow would be a panic inside the state database, is proved never to go below zero for every SSTORE schedule and every sequence of writes (Model/SStore.v).",
         "level_note": COMMON_NOTE + "Modelled: vm/instructions.go:926-1140, vm/contracts.go:1080-1193, vm/evm.go frame logic. Not modelled: Go runtime fatal errors other than through the F7 probe.",
         "rule": "4 generator classes (random bytes with 0xe7 masked, one hostile journal instruction over the boundary word set {0,1,31,32,33,2^63-1,2^63,2^64-1,2^64,2^255,2^256-1,2^40,small}, malformed programs, grammar programs with journal "
                 "snippets and calls to precompiles 1-9 and 0x64-0x66) x 6 entry points x 13 forks x join points on/off; non-trivial = any case; distinct = distinct (fork, entry, codes, input)",
@@ -424,7 +437,7 @@ PROPS.update({
         "technique": "Coq theorems (work formulas of the journal decoders and ABI decoder; refutation witness for the reference journal) + counting-StateDB / allocation sweep over length fields 2^k",
         "level_text": "Theorems in Coq: the value journal reads one slot and copies at most 32 bytes; memory strings copied by the key journals lie within the frame's memory; the context-write precompile returns sub-slices of its calldata; "
                       "the reference journal performs 1 + ceil(len/32) reads with len taken from a contract-controlled storage word — the bound by a fixed multiple of the flat 800 gas is REFUTED (theorem with witness, known finding F7) and the weaker bound by the encoded length is proved. "
-                      "A sweep with a counting StateDB and allocation accounting runs each journal instruction and the context-write precompile with length fields 2^5..2^16 (2^22 thorough).",
+                      "A sweep with a counting StateDB and allocation accounting runs each journal instruction and the context-write precompile with length fields 2^5..2^16 (2^22 thorough). MODEXP's fee function is modelled with its clamp (Model/ModExp.v): unless the fee is the unpayable maximum, the operand lengths the input declares are at most 51 x fee + 66; the model is run against RequiredGas of both schedules.",
         "level_note": COMMON_NOTE + "For the inherited opcodes the statement is inherited from go-ethereum v1.12.0 (the identity theorem over regenerated digests is part of C20's theorems) and additionally swept (sizes 2^k against allocation per gas), not re-proved. Allocation is measured with runtime.MemStats (TotalAlloc delta).",
         "rule": "6 instruction/precompile shapes x k = 5..16 (22): a length field of 2^k placed where it could drive reads, copies or allocations; plus 4 journal instructions with a pointer operand 2^10..2^24 beyond the frame's memory; bound checked: reads <= gas/100 + 2, allocated bytes <= 128 KiB + 16 x memory size; "
                 "plus 16 inherited copy/hash/log/call/create/return shapes x size 2^12..2^26 (thorough 2^10..2^63) x {Berlin, Cancun}: allocated bytes of the whole transaction <= 256 KiB + 8 x gas used; "
@@ -503,7 +516,7 @@ PROPS.update({
         "technique": "Coq theorems (tracer packages and emitting code digest-identical to go-ethereum v1.12.0; start/end and enter/exit balanced for every Aspect behaviour by mutual induction) + reference comparison of callback streams and of paired tracer outputs",
         "level_text": "Theorems: over regenerated digests every declaration of tracers, tracers/logger, tracers/native (and of vm/core) is identical to upstream's or a reviewed Aspect addition; in the frame model the events any entry point adds are a well-nested "
                       "word of start/end and enter/exit for every instruction semantics, Aspect oracle and failure position. Equality of the callback sequence and arguments with go-ethereum v1.12.0 is validated by recording both streams on generated programs "
-                      "(all forks, entry points), equality of the inherited tracers by running them pairwise and comparing GetResult; the model's event stream is compared with the implementation's when join points abort calls.",
+                      "(all forks, entry points), equality of the inherited tracers by running them pairwise and comparing GetResult; the model's event stream is compared with the implementation's when join points abort calls. The opcode names printed by the tracers are read from the live tables of both code bases and proved equal except for the thirteen reviewed Artela names.",
         "level_note": COMMON_NOTE + REF_NOTE + "Access-list tracer outputs are compared as sorted sets (both implementations range over a map, inherited). Invalid-opcode names are compared by class (opcode bytes were renumbered).",
         "rule": "diffref programs (see C01) with the full callback stream compared; tracer pairs: generated programs x 8 forks x 18 tracer configurations x entry points call/create/create2 x gas limits; exec scenarios with failing join points (events mask); "
                 "non-trivial = at least 5 steps resp. non-empty tracer output; distinct = (fork, entry, codes, input, tracer, config)",
